@@ -808,7 +808,7 @@ func (fv *FuncVC) citeAt(guard Term) {
 			specFail("%s cites unknown lemma %s", fv.name, name)
 		}
 		env := &Env{e: fv.e, vars: map[string]TV{}, st: fv.st, old: fv.entry, pkg: lem.Pkg, alloc0: fv.alloc0}
-		t := env.trBool(lem.Body)
+		t := env.trHyp(lem.Stmt())
 		key := "cite:" + t
 		if fv.e.declared[key] {
 			continue
